@@ -78,6 +78,13 @@ def mk_rot(shape, cls=Rotation, flags="mixed", sym=None):
     r = cls(quat_data(shape, "unit"))
     if flags == "mixed":
         r.improper = np.array([R.random() < 0.5 for _ in range(size(shape))]).reshape(shape)
+    elif flags == "all":
+        r.improper = np.ones(shape, dtype=bool)
+    elif flags == "one":
+        f = np.zeros(size(shape), dtype=bool)
+        if f.size:
+            f[R.randrange(f.size)] = True
+        r.improper = f.reshape(shape)
     if sym is not None:
         r.symmetry = sym
     return r
@@ -296,8 +303,17 @@ if want("ori"):
             g1, g2 = R.choice([("D3", "T"), ("T", "D3"), ("D6", "O"), ("O", "D6"), ("C3", "O"), ("T", "C6")])
         G1, G2 = getattr(osym, g1), getattr(osym, g2)
         flags = R.choice(["none", "none", "mixed"])
-        X = mk_rot(ss, Orientation, flags, G1)
-        Y = mk_rot(so, Orientation, flags, G2)
+        fX = fY = flags
+        if t % 5 == 2:
+            # the improper flags of the two operands are independent: one operand all proper, the other with one / some /
+            # only improper orientations -- with a group that has improper operations, since only those relate a proper to
+            # an improper orientation (a shortcut decided on the flags of ONE operand shows here and nowhere else)
+            fX, fY = [("none", "one"), ("one", "none"), ("none", "all"), ("all", "none"), ("none", "mixed"), ("mixed", "none")][(t // 5) % 6]
+            g1 = g2 = R.choice(["Ci", "C2h", "Cs", "C2v", "S4", "C3v", "D2h", "Oh", "D6h"])
+            G1, G2 = getattr(osym, g1), getattr(osym, g2)
+            flags = f"{fX}/{fY}"
+        X = mk_rot(ss, Orientation, fX, G1)
+        Y = mk_rot(so, Orientation, fY, G2)
         S = _get_unique_symmetry_elements(G2, G1)      # (other.symmetry, self.symmetry), as the three methods do
         k = pick_k(ss, so)
         sj = {"shape": [S.size], "q": S.data.reshape(-1, 4).tolist(), "imp": S.improper.reshape(-1).astype(int).tolist()}
